@@ -168,7 +168,7 @@ func runC19(r *Run) {
 				if p, ok := br.Info.Root.(*ssa.Parameter); ok && p.Name() == "allowOrigin" {
 					n++
 					sl, _ := br.slotFor(token.EQL)
-					_, hit := reach(pointOfEdge(edge{br.If.Block(), sl}), isCred, nil, nil)
+					_, hit := reachEdge(edge{br.If.Block(), sl}, isCred, nil, nil)
 					r.check(hit == nil, "setSimpleHeaders:star↛credentials", r.pos(br.If), "Allow-Credentials unreachable from the allowOrigin == \"*\" edge", "Access-Control-Allow-Credentials: true can be sent together with Access-Control-Allow-Origin: *")
 				}
 			}
@@ -207,7 +207,7 @@ func runC19(r *Run) {
 			if !dom {
 				continue
 			}
-			_, hit := reach(pointOfEdge(edge{br.If.Block(), sl}), isReturn, nil, nil)
+			_, hit := reachEdge(edge{br.If.Block(), sl}, isReturn, nil, nil)
 			okPanic = hit == nil
 		}
 		r.check(okPanic, "New:refuses-credentials-with-all-origins", r.fpos(nf), "AllowCredentials && allowAllOrigins never returns a handler (panics)", "a handler can be constructed with AllowCredentials and all origins allowed")
